@@ -43,14 +43,21 @@
                   - addFieldSelections files exactly the inductively collected fields ([InC]) when selection
                     sets sit at distinct positions                               (C04_collect_complete, C04_collect_sound,
                                                                                C04_subscription_single_root_model)
-    NOT proved: the equivalences for 5.2.3.1 (subscription root: the Spec's CollectFields against [InC];
-    the model side is proved) and 5.3.2 (FieldsInSetCanMerge / SameResponseShape), hence validate_verdict itself;
-    validate_error_located.  These are covered on every run by the correspondence check and the
-    Spec oracle only. *)
+                  - 5.2.3.1: the Spec's CollectFields holds exactly the inductively collected fields, so the
+                    subscription check is 5.2.3.1; validate_verdict up to 5.3.2 alone   (C04_spec_collected_complete,
+                                                                               C04_subscription_check_is_5_2_3_1, C04_verdict_up_to_merge_partial)
+                  - 5.3.2, soundness (accepted -> the fields under one response key can merge, recursively),
+                    fields defined on every possible object type, acyclicity as chains
+                                                                              (C04_accepted_merge_sound, C04_fields_defined_on_possible,
+                                                                               C04_spreads_silent_acyclic_chains)
+    NOT proved: that the overlapping-fields pass agrees with the Spec's FieldsInSetCanMerge /
+    SameResponseShape (5.3.2: completeness, and soundness in the Spec's own encoding), hence
+    validate_verdict itself; validate_error_located.  These are covered on every run by the
+    correspondence check and the Spec oracle only. *)
 From Coq Require Import List NArith Bool.
 From ApiFu Require Import Base.Sexp Vld.Ast Vld.Inspect Vld.InspectProofs Vld.TypeInfoModel Vld.TypeInfoPure Vld.ValidatorModel Vld.ValidSpec
      Vld.Hyps Vld.ProofsCommon Vld.ProofsDirectives Vld.ProofsArguments Vld.ProofsFragDecl Vld.ProofsValues
-     Vld.ProofsCycles Vld.ProofsVarsOrder Vld.ProofsOrder Vld.ProofsOperations Vld.ProofsTotal Vld.Enumerate Vld.ProofsFields Vld.ProofsMemo Vld.ValidatorProofs Vld.ProofsSpreads Vld.ProofsSecondary Vld.ProofsSecondaryAll Vld.ProofsSpreadsSpec Vld.ProofsFieldsConverse Vld.ProofsVarsConverse Vld.ProofsComplete Vld.ProofsCollect Vld.ProofsMergeSound Vld.ProofsPossibleFields Vld.ProofsSpecReach Vld.ProofsVarsSpec Vld.ProofsDepth Vld.ProofsDepthRule Vld.MemoTransfer Vld.ProofsMemoConverse Vld.MemoEquiv Vld.ProofsTypeInfoValues Vld.Witness.
+     Vld.ProofsCycles Vld.ProofsVarsOrder Vld.ProofsOrder Vld.ProofsOperations Vld.ProofsTotal Vld.Enumerate Vld.ProofsFields Vld.ProofsMemo Vld.ValidatorProofs Vld.ProofsSpreads Vld.ProofsSecondary Vld.ProofsSecondaryAll Vld.ProofsSpreadsSpec Vld.ProofsFieldsConverse Vld.ProofsVarsConverse Vld.ProofsComplete Vld.ProofsCollect Vld.ProofsMergeSound Vld.ProofsPossibleFields Vld.ProofsSpecCollect Vld.ProofsSubscription Vld.ProofsSpecReach Vld.ProofsVarsSpec Vld.ProofsDepth Vld.ProofsDepthRule Vld.MemoTransfer Vld.ProofsMemoConverse Vld.MemoEquiv Vld.ProofsTypeInfoValues Vld.Witness.
 Import ListNotations.
 
 (** ** determinism: acceptance is a function of schema, features and document alone *)
@@ -498,6 +505,59 @@ Proof. exact memo_accepted_acyclic_spreads. Qed.
 Theorem C04_no_cycle_acyclic_chains : forall D, valid_5_5_2_2 D = true -> acyclic_spreads D.
 Proof. exact no_cycle_acyclic_spreads. Qed.
 
+(** ** 5.2.3.1 against the Spec's CollectFields
+    [InCS D ss f]: the inductive collection on the document as written (fragments looked up as the Spec
+    does).  The Spec's [collected] — visited set of fragment names, fuel one more than the number of
+    fragment definitions — holds exactly these fields: the fuel never runs out because every nesting
+    level marks a defined fragment not marked before.  With [C04_collect_complete] /
+    [C04_collect_sound] the validator's subscription check and the Spec's count agree, operation by
+    operation, when fragment names are unique and selection sets sit at distinct positions
+    ([doc_set_positions_distinct]: true of parsed documents). *)
+Theorem C04_spec_collected_sound : forall S F D parent ss f,
+  (exists par, In (f, par) (collected S F D parent ss)) -> InCS D ss f.
+Proof. exact collected_sound. Qed.
+Theorem C04_spec_collected_complete : forall S F D parent ss f,
+  InCS D ss f -> exists par, In (f, par) (collected S F D parent ss).
+Proof. exact collected_complete. Qed.
+Theorem C04_subscription_check_is_5_2_3_1 : forall S F D k kp n vars dirs ss,
+  NoDup (frag_names D) -> doc_set_positions_distinct D -> In (DOp (Some (k, kp)) n vars dirs ss) D ->
+  name_eqb k s_subscription_kw = true ->
+  forall m v, add_selections repaired (pti_doc (q_unwrap_obj repaired) S F D) [] (Some (def_sub (pti_def (q_unwrap_obj repaired) S F (DOp (Some (k, kp)) n vars dirs ss)))) = COk m v ->
+  (Nat.eqb (length m) 1 = true <->
+   Nat.eqb (length (dedup (map (fun c => resp_name (fst c)) (collected S F D (root_type S (Some (k, (0, 0)%N))) ss)))) 1 = true).
+Proof. exact sub_ok_spec. Qed.
+Theorem C04_accepted_single_root : forall pi S F D,
+  order_ok pi -> schema_ok S = true -> schema_args_ok S = true -> schema_impls_ok S = true -> schema_defaults_ok S = true ->
+  doc_set_positions_distinct D -> validate_model_memo repaired pi S F D = Done [] -> valid_5_2_3_1 S F D = true.
+Proof. exact memo_accepted_5_2_3_1. Qed.
+
+(** the two positional hypotheses ([doc_set_positions_distinct], [doc_field_positions_distinct]) in
+    their decidable form, evaluated on every generated document *)
+Theorem C04_doc_positions_ok_spec : forall D,
+  doc_positions_ok D = true -> doc_set_positions_distinct D /\ doc_field_positions_distinct D.
+Proof. exact doc_positions_ok_spec. Qed.
+
+(** ** validate_verdict up to 5.3.2 (partial)
+    As [C04_verdict_up_to_two_rules_partial], with the subscription check replaced by the Spec's
+    5.2.3.1: what separates this from validate_verdict is the equivalence of the overlapping-fields
+    pass with the Spec's FieldsInSetCanMerge / SameResponseShape alone (its soundness, in this
+    development's encoding, is [C04_accepted_merge_sound]). *)
+Theorem C04_verdict_up_to_merge_partial : forall pi S F D,
+  order_ok pi ->
+  schema_ok S = true -> schema_args_ok S = true -> schema_impls_ok S = true -> schema_defaults_ok S = true ->
+  doc_set_positions_distinct D ->
+  (validate_model_memo repaired pi S F D = Done [] <->
+   (valid_5_2_1_1 D = true /\ valid_5_2_2_1 D = true /\ valid_root S D = true /\
+    valid_5_3_1 S F D = true /\ valid_5_3_3 S F D = true /\
+    valid_5_4 S F D = true /\
+    valid_5_5_1 S F D = true /\ valid_5_5_2_1 D = true /\ valid_5_5_2_2 D = true /\ valid_5_5_2_3 S F D = true /\
+    valid_5_6 S F D = true /\
+    valid_5_7 S D = true /\
+    valid_5_8_1 D = true /\ valid_5_8_2 S F D = true /\ valid_5_8_3 S F D = true /\ valid_5_8_4 S F D = true /\ valid_5_8_5 S F D = true) /\
+   valid_5_2_3_1 S F D = true /\
+   (forall e2, rule_fields_m repaired pi S F (pti_doc (q_unwrap_obj repaired) S F D) = Done e2 -> primary e2 = [])).
+Proof. exact verdict_up_to_merge. Qed.
+
 (** ** rule groups against sections of the specification *)
 (** 5.7.1 – 5.7.3 (directives defined, in valid locations, unique per location): no hypothesis *)
 Theorem C04_rule_directives_iff : forall S F D,
@@ -697,6 +757,12 @@ Print Assumptions C04_defined_on_possible.
 Print Assumptions C04_fields_defined_on_possible.
 Print Assumptions C04_spreads_silent_acyclic_chains.
 Print Assumptions C04_no_cycle_acyclic_chains.
+Print Assumptions C04_spec_collected_sound.
+Print Assumptions C04_spec_collected_complete.
+Print Assumptions C04_subscription_check_is_5_2_3_1.
+Print Assumptions C04_accepted_single_root.
+Print Assumptions C04_doc_positions_ok_spec.
+Print Assumptions C04_verdict_up_to_merge_partial.
 Print Assumptions C04_rule_directives_iff.
 Print Assumptions C04_rule_fragment_declarations_iff.
 Print Assumptions C04_rule_operations_iff_partial.
